@@ -12,7 +12,7 @@ func TestGeneratedUnitsParseAuditC02(t *testing.T) {
 		return Opts{Bodies: true, MultiByte: true, Interfaces: true, Wide: true, Anon: true, RichDecl: true, Loops: true, MaxUnits: 4, MaxMethods: 4,
 			ScopedReuse: rapid.Bool().Draw(rt, "reuse"), SharedMethodNames: true, UnqualifiedForeign: true,
 			ExoticNames: true, WildcardProjectImports: true, TwinNames: true, TwinReferrers: true,
-			AnonBodies: true, AssignedCreations: true, CaseTwinNames: true, ScopeEnds: true, CallLayout: true, OwnTypeVars: true, ReturnCalls: true, FieldForms: true, InterfaceBodies: true}
+			AnonBodies: true, AssignedCreations: true, CaseTwinNames: true, ScopeEnds: true, CallLayout: true, OwnTypeVars: true, ReturnCalls: true, FieldForms: true, InterfaceBodies: true, FieldChainCalls: true}
 	})
 }
 
@@ -23,7 +23,7 @@ func TestReceiverClassesResolveAsExpected(t *testing.T) {
 		p := GenProject(rt, Opts{Bodies: true, MultiByte: true, Interfaces: true, Wide: true, Anon: true, RichDecl: true, Loops: true, MaxUnits: 4, MaxMethods: 4,
 			ScopedReuse: rapid.Bool().Draw(rt, "reuse"), SharedMethodNames: true, UnqualifiedForeign: true,
 			ExoticNames: true, WildcardProjectImports: true, TwinNames: true, TwinReferrers: true,
-			AnonBodies: true, AssignedCreations: true, CaseTwinNames: true, ScopeEnds: true, CallLayout: true, OwnTypeVars: true, ReturnCalls: true, FieldForms: true, InterfaceBodies: true})
+			AnonBodies: true, AssignedCreations: true, CaseTwinNames: true, ScopeEnds: true, CallLayout: true, OwnTypeVars: true, ReturnCalls: true, FieldForms: true, InterfaceBodies: true, FieldChainCalls: true})
 		for _, u := range p.Units {
 			for _, f := range u.Funcs {
 				for _, e := range f.Events {
